@@ -817,6 +817,68 @@ func (c *conn) Close() error {""")]),
  ("c16-normalize-cursor-overflow", "C16", [("path.go", """	ans := make([]string, len(args))
 """, """	ans := make([]string, len(args)/2+1)
 """)]),
+
+ # ---- C17
+ ("c17-no-offset-test", "C17", [("readdir.go", """	if rd.offset != offset {
+		return 0, ErrBadoffset
+	}
+""", "")]),
+ ("c17-append-on-overflow", "C17", [("readdir.go", """		if len(p)+len(dp) > cap(p) {
+			// will over fill buffer. save item and exit.
+			rd.buf = &d
+			goto done
+		}
+""", """		if len(p)+len(dp) > cap(p)+len(dp) {
+			// will over fill buffer. save item and exit.
+			rd.buf = &d
+			goto done
+		}
+""")]),
+ ("c17-drop-lookahead", "C17", [("readdir.go", """			rd.buf = &d
+			goto done""", """			goto done""")]),
+ ("c17-offset-advance-off", "C17", [("readdir.go", "	rd.offset += int64(len(p))\n", "	rd.offset += int64(len(p)) + 1\n")]),
+ ("c17-buf-not-cleared", "C17", [("readdir.go", """			d = *rd.buf
+			rd.buf = nil""", """			d = *rd.buf""")]),
+ ("c17-eof-escapes", "C17", [("readdir.go", """	if err == io.EOF {
+		// Don't let io.EOF escape. EOF is indicated by a zero-length result
+		// with no error.
+		err = nil
+	}
+""", """	_ = io.EOF
+""")]),
+ ("c17-next-ignores-pending", "C17", [("readdir.go", """		if rd.buf != nil {
+			d = *rd.buf
+			rd.buf = nil
+		} else {
+			d, err = rd.nextfn(ctx)
+			if err != nil {
+				goto done
+			}
+		}""", """		if rd.buf != nil {
+			rd.buf = nil
+		}
+		d, err = rd.nextfn(ctx)
+		if err != nil {
+			goto done
+		}""")]),
+ ("c17-session-opens-dir-as-file", "C17", [("sfilesys.go", """	if IsDir(ref.Ent) {
+		dirs, err := ref.Ent.OpenDir(ctx)""", """	if IsDir(ref.Ent) && mode == OEXEC {
+		dirs, err := ref.Ent.OpenDir(ctx)""")]),
+ ("c17-client-nread-not-advanced", "C17", [("cfilesys.go", "	dir.nread += int64(n)\n", "")]),
+ ("c17-client-decodes-whole-buf", "C17", [("cfilesys.go", "	rd := bytes.NewReader(dir.buf[:n])", "	rd := bytes.NewReader(dir.buf)")]),
+ ("c17-mknext-empty-batch-not-done", "C17", [("readdir.go", """			if len(ret) == 0 {
+				done = true
+				return Dir{}, io.EOF
+			}""", """			if len(ret) == 0 {
+				return Dir{}, io.EOF
+			}""")]),
+ ("c17-mknext-no-empty-check", "C17", [("readdir.go", """			if len(ret) == 0 {
+				done = true
+				return Dir{}, io.EOF
+			}
+			dirs = make([]Dir, len(ret))""", """			done = len(ret) == 0
+			dirs = make([]Dir, len(ret))""")]),
+ ("c17-work-slice-full-cap", "C17", [("readdir.go", "	p = p[:0:len(p)]", "	p = p[:0]")]),
 ]
 
 # Behaviour-preserving (for the named property) edits: the check must stay silent.
